@@ -21,6 +21,7 @@
   vectored writes, write_from(_at), write_all_from, commit), by induction over the list.
 -/
 import Fbr.Lemmas.XportStart
+import Fbr.Lemmas.SrvDirty
 
 namespace Fbr.Thm.C17
 open Fbr.Xport
@@ -105,6 +106,36 @@ theorem write_from_marks_only_delivered_bytes (b : IoBufs) (w : World) (src : Sc
 theorem pages_of_range_exact (p : Nat) (hp : 0 < p) (s : Seg) (x : Nat × Nat) :
     x ∈ pagesOf p s ↔ ∃ a ∈ segAddrs s, pageOf p a = x :=
   mem_pagesOf hp
+
+/-! ### whole requests (srv stage) -/
+
+/-- **What the srv stage expects the bitmap to hold after a whole request** — the real
+    `Server::handle_message` on a virtio-fs chain over `GuestMemoryMmap<AtomicBitmap>` is compared
+    with `Fbr.SrvShow.dirtyPages` — is exactly the set of 4 KiB pages that contain one of the
+    first `n` byte addresses of the writable descriptors in chain order, where `n` is the length
+    of the reply the server model stores (`(Srv.handle cfg fs req).out.area.length`); for any
+    descriptor list (zero-length descriptors, any alignment) and any `n`. -/
+theorem server_reply_dirty_pages_exact (segs : List (Nat × Nat)) (cfg : Fbr.Srv.Cfg)
+    (fs : Fbr.Srv.Call → Fbr.Srv.Ans) (req : Fbr.Wire.Bytes) (x : Nat) :
+    x ∈ Fbr.SrvShow.dirtyPages segs (Fbr.Srv.handle cfg fs req).out.area.length ↔
+      ∃ a ∈ (Fbr.SrvShow.areaAddrs segs).take (Fbr.Srv.handle cfg fs req).out.area.length, a / 4096 = x :=
+  Fbr.SrvShow.mem_dirtyPages _ _ _
+
+/-- a request that stores no reply bytes leaves every page clean -/
+theorem server_no_reply_nothing_dirty (segs : List (Nat × Nat)) : Fbr.SrvShow.dirtyPages segs 0 = [] := by
+  have h : ∀ x, x ∉ Fbr.SrvShow.dirtyPages segs 0 := by
+    intro x hx
+    have := (Fbr.SrvShow.mem_dirtyPages segs 0 x).mp hx
+    simp at this
+  exact List.eq_nil_iff_forall_not_mem.mpr h
+
+example : 4 ∈ Fbr.SrvShow.dirtyPages [(4090, 10), (0, 0), (20000, 100)] 12 ∧
+    5 ∉ Fbr.SrvShow.dirtyPages [(4090, 10), (0, 0), (20000, 100)] 12 := by
+  constructor
+  · exact (Fbr.SrvShow.mem_dirtyPages _ _ _).mpr ⟨20000, by decide, by decide⟩
+  · intro h
+    obtain ⟨a, ha, e⟩ := (Fbr.SrvShow.mem_dirtyPages _ _ _).mp h
+    revert a; decide
 
 /-! ### non-vacuity -/
 
